@@ -70,6 +70,11 @@ def programs(tier, seed):
                          nd("CreateVector", [4, 5, 6], t=t3), nd("VectorToArray", [7]), nd("Get", [8], index=ix)]), [t3, t3, t3]))
     m22 = A("i64", [2, 2])
     ps.append(("matmul_i64", prog([inp(m22), inp(m22), nd("Matmul", [1, 2])]), [m22, m22]))
+    # two directly consecutive sums whose inner axis lies after the outer one (round-3 change C01_F: a fused Sum(Sum(x)))
+    t334 = A("i32", [3, 3, 4])
+    ps.append(("sum_of_sum_i32", prog([inp(t334), inp(t334), nd("Multiply", [1, 2]), nd("Sum", [3], axes=[2]), nd("Sum", [4], axes=[0])]), [t334, t334]))
+    ps.append(("sum_of_sum_pub_i64", prog([inp(A("i64", [2, 3, 2])), inp(A("i64", [2, 3, 2])), nd("Add", [1, 2]), nd("Sum", [3], axes=[1, 2]), nd("Sum", [4], axes=[0])]),
+               [A("i64", [2, 3, 2]), A("i64", [2, 3, 2])]))
     ps.append(("gemm_nt_i64", prog([inp(A("i64", [2, 3])), inp(A("i64", [2, 3])), nd("Gemm", [1, 2], ta=False, tb=True)]), [A("i64", [2, 3]), A("i64", [2, 3])]))
     ps.append(("gemm_tn_u64_then_mul", prog([inp(A("u64", [2, 2])), inp(A("u64", [2, 2])), nd("Gemm", [1, 2], ta=True, tb=False), nd("Multiply", [3, 1])]), [A("u64", [2, 2]), A("u64", [2, 2])]))
     ps.append(("dot_i32", prog([inp(A("i32", [3])), inp(A("i32", [3])), nd("Dot", [1, 2])]), [A("i32", [3]), A("i32", [3])]))
